@@ -20,7 +20,7 @@ import (
 // C18 — timestamp parsing agrees with the standard library on RFC 3339.
 
 const c18Rule = "strings drawn from the RFC 3339 date-time grammar (year 0000-9999, any month/day/hour/minute/second digits in range, fraction absent or '.'/',' with 1-12 digits, 'Z' or +-hh:mm), " +
-	"kept for the agreement clause only if time.Parse(time.RFC3339, s) accepts them; valid YYYY-MM-DD dates (thorough: all ~3.65M enumerated, quick: strided); time.Time values formatted with RFC3339Nano; " +
+	"kept for the agreement clause only if time.Parse(time.RFC3339, s) accepts them; valid YYYY-MM-DD dates (thorough: all ~3.65M enumerated, quick: strided); time.Time values formatted with RFC3339Nano by the standard library and by the library's own time codec; " +
 	"for the no-panic clause one-edit mutations and every prefix of valid timestamps and random strings; all through the public path (a string field decoded into time.Time and into null.Time); " +
 	"oracle: time.Parse (instant and zone offset), midnight UTC for dates, identity for Format->decode, 'a time or an error, never a panic' otherwise; " +
 	"non-trivial = accepted string with a fraction or a numeric offset, or a date; distinct by string"
@@ -29,6 +29,9 @@ var rfc3339Grammar = regexp.MustCompile(`^[0-9]{4}-[0-9]{2}-[0-9]{2}T[0-9]{2}:[0
 
 type c18Case struct {
 	S []byte `json:"s"`
+	// ViaLibrary: S is a time (RFC3339Nano); it is first written with the
+	// library's own time codec and the text it produced is what gets parsed.
+	ViaLibrary bool `json:"via_library,omitempty"`
 }
 
 func init() { registerReplay("c18", func(c c18Case) error { _, _, err := runC18(c); return err }) }
@@ -96,6 +99,21 @@ func sameTime(a, b time.Time) bool {
 }
 
 func runC18(c c18Case) (bool, []string, error) {
+	if c.ViaLibrary {
+		tm, err := time.Parse(time.RFC3339Nano, string(c.S))
+		if err != nil {
+			return false, nil, fmt.Errorf("VERIF-INCONCLUSIVE harness: %v", err)
+		}
+		text, err := libraryFormat(tm)
+		if err != nil {
+			return true, []string{"library_formatted"}, fmt.Errorf("writing %v with the library's time codec: %v", tm, err)
+		}
+		std, err := time.Parse(time.RFC3339Nano, string(text))
+		if err != nil || !sameTime(std, tm) {
+			return true, []string{"library_formatted"}, fmt.Errorf("time %s was written by the library as %q, which the standard library reads as %v (err %v)", c.S, text, std, err)
+		}
+		c = c18Case{S: text}
+	}
 	s := string(c.S)
 	var want time.Time
 	var perr error
@@ -190,8 +208,34 @@ func grammarTimestamp(t *rapid.T) string {
 	return s + sign + digits(t, "zh", 2, 0, 24) + ":" + digits(t, "zm", 2, 0, 59)
 }
 
+// libraryFormat writes the time through the library's own string codec and
+// returns the text it produced.
+func libraryFormat(tm time.Time) ([]byte, error) {
+	tc, _, err := c18Codecs()
+	if err != nil {
+		return nil, err
+	}
+	wb := avro.NewWriteBuf(nil)
+	r := timeRec{T: tm}
+	tc.Write(wb, reflect.ValueOf(&r).UnsafePointer())
+	d, err := ref.DecodeExact(ref.Schema{Kind: "record", Name: "r", Fields: []ref.Field{{Name: "t", Type: ref.Prim("string")}}}, wb.Bytes())
+	if err != nil {
+		return nil, err
+	}
+	return d.Fields[0].S, nil
+}
+
 func drawC18(t *rapid.T) c18Case {
-	switch gen.Uniform(t, "cls", 10) {
+	switch gen.Uniform(t, "cls", 11) {
+	case 10: // formatted by the LIBRARY's writer: must be RFC 3339 for the same instant, and read back
+		var v specTime
+		tm := v.draw(t)
+		if gen.Uniform(t, "nsShape", 2) == 0 {
+			// digits that a hand-written formatter gets wrong: zero groups inside the fraction
+			ns := []int{1, 10, 100, 1000, 123000456, 123000000, 456, 999000001, 1000001, 100000000, 120000034}[gen.Uniform(t, "nsEdge", 11)]
+			tm = time.Date(tm.Year(), tm.Month(), tm.Day(), tm.Hour(), tm.Minute(), tm.Second(), ns, tm.Location())
+		}
+		return c18Case{S: []byte(tm.Format(time.RFC3339Nano)), ViaLibrary: true}
 	case 0: // formatted time values: Format(RFC3339Nano) -> decode must be the identity
 		var v specTime
 		return c18Case{S: []byte(v.draw(t).Format(time.RFC3339Nano))}
